@@ -83,7 +83,7 @@ func (tr *Trace) Ownership(key string) []*Own {
 		}
 		o.ToT = 1<<62 - 1
 		if tr.Plan.TTL > 0 {
-			o.ToT = o.FromT + tr.Plan.TTL
+			o.ToT = o.FromT + tr.Plan.StoreTTL()
 			o.Expired = true
 		}
 		if !v.Tomb {
